@@ -1,0 +1,9 @@
+//go:build verif
+
+// Contracts for the verifier in /verif (govc). Comment-only.
+
+package tool
+
+//@ iface (BaseTool).Info
+//@   ensures[info] result1 == nil ==> result0 != nil
+//@   note requirement on user tools: Info returns a non-nil ToolInfo when it returns no error (trusted)
